@@ -37,7 +37,11 @@ ALPHA_KV = ['a', 'b', ',', '=', ' ', '{x,y=z}', '{}', '\\textbf{k=v}', '%c,=\n']
 
 SEP_KINDS = [('str', ','), ('str', '::'), ('rx', '[,;]'), ('callpair', ','), ('callmatch', '[,;]'),
              ('str', '='), ('rx', ',+'), ('rx', ' *, *'), ('calldone-neg', ','),
-             ('calldone-empty', ','), ('calldone-match', ',')]
+             ('calldone-empty', ','), ('calldone-match', ','),
+             # patterns that look to the left of the match (lookbehind, anchor, word boundary):
+             # the search runs on the chars node's text from the current position, as
+             # pattern.search(text, pos) does, not on a slice
+             ('rx', '(?<!,),'), ('rx', '^;|,'), ('callmatch', '(?<=a),|;')]
 # child node kinds the statement names (math, environments, specials) in a second alphabet
 ALPHA2 = ['a', ',', '=', ' ', '$x,y=z$', '\\begin{x}a,b=c\\end{x}', '~', '{a,b}']
 
@@ -189,7 +193,7 @@ def check_split_chars(s, nl, opt, res, case):
                          'part %d starts at %d before %d' % (i, a, cur), case)
                 return
             gap = s[cur:a]
-            if not only_separators(gap, finder):
+            if not tiled_by_separators(cur, a, seps):
                 res.fail('c18:content-lost-between-parts:%s' % tag,
                          'source %r between parts is not made of separators only' % gap, case)
                 return
@@ -202,10 +206,22 @@ def check_split_chars(s, nl, opt, res, case):
                          'part %d = %r still contains a top-level separator' % (i, got[i]), case)
                 return
             cur = b
-        if not only_separators(s[cur:], finder):
+        if not tiled_by_separators(cur, len(s), seps):
             res.fail('c18:content-lost-after-last-part:%s' % tag,
                      'source %r after the last part is not made of separators only' % s[cur:], case)
     return nsep
+
+
+def tiled_by_separators(lo, hi, seps):
+    """[lo, hi) is exactly a run of the model's separator occurrences (found in context)"""
+    starts = dict(seps)
+    pos = lo
+    while pos < hi:
+        e = starts.get(pos)
+        if e is None or e <= pos:
+            return False
+        pos = e
+    return pos == hi
 
 
 def only_separators(text, finder):
